@@ -271,14 +271,14 @@ fn latest_parser_task() -> Option<usize> {
     rt::with(|w| w.tasks.keys().next_back().copied())
 }
 
-/// A blocking receive can return iff something is buffered or the parser thread can still move.
-fn recv_safe(rx: &Receiver<DebuggerEvent>) -> bool {
-    if rx.sim_buffered() > 0 {
-        return true;
-    }
+/// Can the parser thread still deliver something without the controller's help? Not if it has
+/// finished or sits in `park` with no token. (Workload decision only — never an oracle input. It
+/// deliberately does not count parks per breakpoint, so it stays valid for an implementation that
+/// parks in a loop.)
+fn parser_can_move() -> bool {
     match latest_parser_task() {
         None => false,
-        Some(t) => !rt::task_finished(t) && !rt::task_owes_park_without_token(t),
+        Some(t) => !rt::task_finished(t) && !rt::task_parked_without_token(t),
     }
 }
 
@@ -336,22 +336,29 @@ impl Ctl {
         }
     }
 
+    /// A receive that waits as long as an event can still arrive and gives up otherwise (the
+    /// script may ask for an event the protocol does not owe it — that must not deadlock the
+    /// controller itself). It polls with `try_recv` and gives way to the other threads in between.
     fn recv_guarded(&mut self) -> Option<DebuggerEvent> {
-        if self.final_seen || !self.run_ok {
+        if self.final_seen || !self.run_ok || self.rx.is_none() {
             rt::mark("recv_skipped final");
             return None;
         }
-        let safe = match &self.rx {
-            Some(rx) => recv_safe(rx),
-            None => false,
-        };
-        if !safe {
-            rt::mark("recv_skipped unsafe");
-            return None;
+        loop {
+            match self.rx.as_ref().unwrap().try_recv() {
+                Ok(ev) => {
+                    self.on_event(&ev);
+                    return Some(ev);
+                }
+                Err(TryRecvError::Disconnected) => return None,
+                Err(TryRecvError::Empty) => {}
+            }
+            if !parser_can_move() {
+                rt::mark("recv_gave_up");
+                return None;
+            }
+            simstd::thread::sleep(std::time::Duration::from_millis(1));
         }
-        let ev = self.rx.as_ref().unwrap().recv().ok()?;
-        self.on_event(&ev);
-        Some(ev)
     }
 
     fn exec(&mut self, c: &Cmd) {
@@ -632,6 +639,9 @@ struct RunModel {
     win_start: u64,
     bp_sends: u64,
     unparks: u64,
+    /// cont() calls begun while this run was the live one (a continue may take effect at any
+    /// instant of the call — the model does not assume it is the unpark)
+    conts_started: u64,
     final_sent: bool,
     superseded: bool,
     exited: bool,
@@ -807,6 +817,7 @@ pub fn check_history(
                             win_start: ev.seq,
                             bp_sends: 0,
                             unparks: 0,
+                            conts_started: 0,
                             final_sent: false,
                             superseded: false,
                             exited: false,
@@ -849,6 +860,9 @@ pub fn check_history(
                     } else if m == "cont_call" {
                         in_cont = true;
                         cont_pending_load = None;
+                        if let Some(r) = runs.last_mut() {
+                            r.conts_started += 1;
+                        }
                     } else if let Some(res) = m.strip_prefix("cont_ret ") {
                         in_cont = false;
                         let expected = match (runs.is_empty(), cont_pending_load) {
@@ -1015,12 +1029,12 @@ pub fn check_history(
                     }
                     r.win_start = ev.seq;
                     r.bp_sends += 1;
-                    if strict_pacing && r.bp_sends > 1 + r.unparks {
+                    if strict_pacing && r.bp_sends > 1 + r.conts_started {
                         flag!(viol(
                             "pacing",
                             format!(
                                 "{} breakpoint events delivered after only {} continues",
-                                r.bp_sends, r.unparks
+                                r.bp_sends, r.conts_started
                             ),
                             seq
                         ));
